@@ -29,9 +29,14 @@ var c11FormNames = []string{`"..."`, "`...`", `$"..."`, "$`...`"}
 // hole variables available to interpolated literals and their display forms
 var c11Vars = map[string]string{"x": "42", "s": "a%b{c}", "b": "true",
 	// display forms by type: negative, beyond 2^53 (not representable as a float64), zero, empty string, slice, tuple
-	"n": "-7", "g": "9007199254740993", "z": "0", "e": "", "l": "[1 2]", "t": "{1 a}"}
+	"n": "-7", "g": "9007199254740993", "z": "0", "e": "", "l": "[1 2]", "t": "{1 a}",
+	// floats are "otherwise": Go %v
+	"fa": "1.5", "fb": "2", "fd": "0.1"}
 
-var c11VarDefs = map[string]string{"x": "42", "s": "\"a%b{c}\"", "b": "true", "n": "0 - 7", "g": "9007199254740993", "z": "0", "e": "\"\"", "l": "[1; 2]", "t": "(1, \"a\")"}
+// c11FloatF: what the recorded finding prints for the float holes (%f instead of %v)
+var c11FloatF = map[string]string{"fa": "1.500000", "fb": "2.000000", "fd": "0.100000"}
+
+var c11VarDefs = map[string]string{"x": "42", "s": "\"a%b{c}\"", "b": "true", "n": "0 - 7", "g": "9007199254740993", "z": "0", "e": "\"\"", "l": "[1; 2]", "t": "(1, \"a\")", "fa": "GoEval<float> \"1.5\"", "fb": "GoEval<float> \"2.0\"", "fd": "GoEval<float> \"0.1\""}
 
 // c11Spec is the specification function: source body -> denoted text; ok=false
 // means the statement does not define the body (out of domain).
@@ -142,7 +147,9 @@ func c11CharDriver() func(c *explore.Chooser) *c11Case {
 	for ch := 0x20; ch <= 0x7e; ch++ {
 		chars = append(chars, string(rune(ch)))
 	}
-	chars = append(chars, "\n", "\t", "é", "あ", "😀")
+	// a carriage return is a character like any other between backticks and quotes (after seed C11g, which
+	// scanned raw literals with strconv.Unquote - Go's raw-string rule drops carriage returns)
+	chars = append(chars, "\n", "\t", "\r", "\r\n", "é", "あ", "😀")
 	return func(c *explore.Chooser) *c11Case {
 		form := c.Choose(4)
 		ch := chars[c.Choose(len(chars))]
@@ -195,7 +202,7 @@ func c11HoleSeqDriver(maxSeq int) func(c *explore.Chooser) *c11Case {
 
 // driver 4: the display form of a hole value by type
 func c11HoleTypeDriver() func(c *explore.Chooser) *c11Case {
-	vars := []string{"x", "s", "b", "n", "g", "z", "e", "l", "t"}
+	vars := []string{"x", "s", "b", "n", "g", "z", "e", "l", "t", "fa", "fb", "fd"}
 	texts := []string{"", "v=", "%", "é"}
 	return func(c *explore.Chooser) *c11Case {
 		form := 2 + c.Choose(2)
@@ -364,7 +371,23 @@ func c11RunBatch(c *core.Ctx, sc *impl.Scratch, fc string, part []*c11Case) {
 			status = "wrong-text"
 		}
 		c.Outcome(status)
-		c.Violation(c11Sig(cs, status), fmt.Sprintf("literal %s should denote %q: %s %q %s", c11Literal(cs.form, cs.body), cs.want, r.Status, r.Stdout, firstLines(r.Detail, 3)),
+		sig := c11Sig(cs, status)
+		if status == "wrong-text" {
+			// the recorded finding: a float hole is displayed with %f - attributed only if the output is EXACTLY the
+			// expectation with the %f forms substituted
+			wantF := cs.want
+			hasFloat := false
+			for _, h := range cs.holes {
+				if f, ok := c11FloatF[h]; ok {
+					hasFloat = true
+					wantF = strings.Replace(wantF, c11Vars[h], f, 1)
+				}
+			}
+			if hasFloat && r.Stdout == wantF {
+				sig = "C11:float-hole-displayed-with-%f"
+			}
+		}
+		c.Violation(sig, fmt.Sprintf("literal %s should denote %q: %s %q %s", c11Literal(cs.form, cs.body), cs.want, r.Status, r.Stdout, firstLines(r.Detail, 3)),
 			map[string]any{"choices": cs.choices, "form": c11FormNames[cs.form], "body": cs.body, "input": map[string]string{"t.fo": c11Prelude + progs[k].Defs}, "expected": cs.want, "observed": r.Status + ": " + r.Stdout + " " + trunc(r.Detail, 800)})
 	}
 }
